@@ -12,7 +12,7 @@ THEOREMS = [("FlatModel.Props.C01", "FC.C02.frame_history"), ("FlatModel.Props.C
 THEOREMS += [("FlatModel.Props.Universe", t) for t in ("FC.Universe.C02_every_composition", "FC.Universe.C02_issued_valid")]
 THEOREMS += [("FlatModel.Props.UniverseOps", "FC.Universe.C02_reserve_every_composition")]
 LEAN_TARGETS = ["FlatModel.Generated.Covered", "FlatModel.Generated.CoveredUniverse"]
-PROFILES = {"quick": ["checked"], "thorough": ["checked", "wrapping"], "search": ["checked"]}
+PROFILES = {"quick": ["checked", "wrapping"], "thorough": ["checked", "wrapping"], "search": ["checked"]}
 RULE = ("histories mixing push (any form), reserve_items, reserve_regions and FlatStack::reserve on every catalogue entry and "
         "FlatStack; after every step all issued ordinals are re-read; non-trivial when an earlier ordinal is re-read after "
         ">= 3 later pushes (growth of every backing vector from empty passes capacity boundaries); distinct by op/value shapes")
